@@ -17,6 +17,11 @@ type AdjEvent struct {
 	TW   string `json:"tw,omitempty"`   // three-way TLV kind (hello)
 	Hold uint16 `json:"hold,omitempty"` // holding time (hello)
 	Sec  int    `json:"sec,omitempty"`  // seconds (adv)
+	// CT is the circuit type of the hello: 0/2 = level 2 only, 3 = level 1 and 2. Area names the area the
+	// neighbor is in at that time: "" = ours, "other" = another one of the same length, "short" = a
+	// shorter one. The level 2 adjacency does not depend on either.
+	CT   uint8  `json:"ct,omitempty"`
+	Area string `json:"area,omitempty"`
 }
 
 type AdjCase struct {
@@ -24,6 +29,8 @@ type AdjCase struct {
 	SameIface bool       `json:"same_iface"` // second neighbor on eth0 as well (else eth1)
 	Events    []AdjEvent `json:"events"`
 	Tail      string     `json:"tail"` // none | short (hold+3 s of silence) | long (hold+126 s)
+	// Level1: the interfaces are configured for level 1 in addition to level 2
+	Level1 bool `json:"level1,omitempty"`
 }
 
 // three-way TLV kinds
@@ -89,7 +96,51 @@ func GenAdjCase(rng *rand.Rand) AdjCase {
 	default:
 		c.Tail = "none"
 	}
+	// levels and areas (drawn last: the histories above are the same as without them)
+	c.Level1 = rng.IntN(2) == 0
+	otherArea := func() string { return []string{"other", "other", "short"}[rng.IntN(3)] }
+	switch mode := rng.IntN(10); {
+	case mode < 3: // level 2 hellos of a neighbor in our area
+	case mode < 5: // an inter-area neighbor speaking both levels
+		a := otherArea()
+		for i := range c.Events {
+			if c.Events[i].K == "hello" {
+				c.Events[i].CT, c.Events[i].Area = 3, a
+			}
+		}
+	case mode < 8: // a neighbor speaking both levels that is moved into / out of our area during the history
+		a, cut, flip := otherArea(), rng.IntN(len(c.Events)), rng.IntN(2) == 0
+		for i := range c.Events {
+			if c.Events[i].K == "hello" {
+				c.Events[i].CT = 3
+				if (i >= cut) != flip {
+					c.Events[i].Area = a
+				}
+			}
+		}
+	default:
+		for i := range c.Events {
+			if c.Events[i].K == "hello" {
+				if rng.IntN(2) == 0 {
+					c.Events[i].CT = 3
+				}
+				if rng.IntN(2) == 0 {
+					c.Events[i].Area = otherArea()
+				}
+			}
+		}
+	}
 	return c
+}
+
+func areaOf(kind string) []byte {
+	switch kind {
+	case "other":
+		return []byte{0x49, 0x00, 0x02}
+	case "short":
+		return []byte{0x47}
+	}
+	return dutArea
 }
 
 type adjNbr struct {
@@ -103,12 +154,15 @@ type adjNbr struct {
 	maxHold    uint16
 	lastHold   uint16
 	downBy     time.Time // at or after this time the adjacency must not be Up
+	keepUntil  time.Time // before this time (holding time of the last hello bio-rd accepts) an Up adjacency must not go Down by itself
+	unlisted   bool      // a hello since the last Up observation carried a three-way TLV that does not list us
 	goneBy     time.Time // at or after this time the neighbor must be absent
 	listed     bool      // a hello since the last non-Up observation listed us
 	listedBy   string
 	everUp     bool
 	state      string // last observed
 	lastTW     string
+	lastLevel  string
 	transition int
 }
 
@@ -142,8 +196,8 @@ func listsUs(kind string) bool { return kind == "init-us" || kind == "up-us" || 
 // RunAdj executes one adjacency history.
 func RunAdj(c AdjCase, out *Outcome, emit func(Sent)) {
 	cfg := Cfg{Sys: dutSys, Area: dutArea, Ifaces: []IfCfg{
-		{Name: "eth0", Hello: 10, Hold: 30, Metric: 10, Index: 5, Net: 0x0a000000},
-		{Name: "eth1", Hello: 10, Hold: 30, Metric: 20, Index: 9, Net: 0x0a000100},
+		{Name: "eth0", Hello: 10, Hold: 30, Metric: 10, Index: 5, Net: 0x0a000000, Level1: c.Level1},
+		{Name: "eth1", Hello: 10, Hold: 30, Metric: 20, Index: 9, Net: 0x0a000100, Level1: c.Level1},
 	}}
 	h, err := New(cfg)
 	if err != nil {
@@ -203,6 +257,11 @@ func RunAdj(c AdjCase, out *Outcome, emit func(Sent)) {
 	hadUp, leftUp := false, false
 
 	// observe runs every monitor; ev describes the event that just happened
+	ilevels := "l2"
+	if c.Level1 {
+		ilevels = "l1l2"
+	}
+	hlevel := "" // level and area of the hello just processed
 	observe := func(ev string, hn *adjNbr, helloKind string, before string) bool {
 		now := h.Clock.Now()
 		adjs := h.Adjs()
@@ -237,6 +296,42 @@ func RunAdj(c AdjCase, out *Outcome, emit func(Sent)) {
 					out.Violate("down-on-not-listed", map[string]string{"tw": helloKind},
 						"step %d: adjacency with %s on %s was Up; a hello whose three-way TLV (%s) does not list this system and circuit was received; the adjacency is still Up", step, n.sys, n.iface, helloKind)
 				}
+			}
+			if hn == n && helloKind != "absent" {
+				// a well-formed hello (all mandatory TLVs, three-way TLV present) was just processed
+				out.Count("valid_hellos_"+hlevel, 1)
+				if st == "absent" {
+					out.Violate("hello-ignored", map[string]string{"tw": helloKind, "hello": hlevel, "iface_levels": ilevels},
+						"step %d (%s): a well-formed point-to-point hello of %s on %s (interface levels %s, hello %s) was processed but GetAdjacencies does not list the neighbor in any state: the handshake cannot start", step, ev, n.sys, n.iface, ilevels, hlevel)
+				}
+				if before != "absent" && listsUs(helloKind) {
+					out.Count("listing_hellos_to_known_neighbor_"+hlevel, 1)
+					if st != "up" {
+						out.Violate("not-up-after-listing", map[string]string{"tw": helloKind, "before": before, "hello": hlevel, "iface_levels": ilevels},
+							"step %d (%s): neighbor %s on %s was known (state %s); its hello lists this system and circuit %d in the three-way TLV; the adjacency is %s, want up (interface levels %s, hello %s)", step, ev, n.sys, n.iface, before, n.circuit, st, ilevels, hlevel)
+					}
+				}
+			}
+			if n.state == "up" && st != "up" {
+				// it went Down: only a hello that does not list us or the holding time may cause that
+				out.Count("up_to_notup_transitions", 1)
+				expired := !now.Before(n.keepUntil)
+				if !n.unlisted && !expired {
+					k := "adv"
+					if hn != nil {
+						k = "hello"
+					}
+					out.Violate("down-without-cause", map[string]string{"event": k, "last_hello": n.lastLevel, "iface_levels": ilevels},
+						"step %d (%s): adjacency with %s on %s left Up (now %s) although every hello since it came Up listed this system and circuit and the holding time of the last hello (%d s) ends at %s (interface levels %s, last hello %s)", step, ev, n.sys, n.iface, st, n.lastHold, n.keepUntil.Format("15:04:05"), ilevels, n.lastLevel)
+				}
+			}
+			if st == "up" {
+				if hn == nil && now.Before(n.keepUntil) && !n.unlisted {
+					out.Count("kept_up_within_hold_checks", 1)
+				}
+			}
+			if st != "up" {
+				n.unlisted = false
 			}
 			if n.helloSeen {
 				if !now.Before(n.downBy) {
@@ -302,7 +397,13 @@ func RunAdj(c AdjCase, out *Outcome, emit func(Sent)) {
 			advance(e.Sec, fmt.Sprintf("clock +1s of %d", e.Sec))
 		case "hello":
 			n := nbrs[e.N%len(nbrs)]
-			pdu := NbrHello(n.sys, n.net, e.Hold, n.threeWay(e.TW))
+			ct := e.CT
+			if ct == 0 {
+				ct = 2
+			}
+			pdu := NbrHelloLevel(n.sys, n.net, e.Hold, n.threeWay(e.TW), ct, areaOf(e.Area))
+			hlevel = fmt.Sprintf("ct%d/area-%s", ct, map[string]string{"": "same", "other": "other", "short": "other"}[e.Area])
+			n.lastLevel = hlevel
 			before := n.state
 			var ferr error
 			if pi, txt := Guard(func() { ferr = h.Feed(n.iface, n.mac, pdu) }); pi != nil {
@@ -320,6 +421,10 @@ func RunAdj(c AdjCase, out *Outcome, emit func(Sent)) {
 			if e.TW != "absent" {
 				// the holding time of the LAST hello counts, also when it is shorter than an earlier one
 				n.downBy, n.goneBy, n.lastHold = dBy, gBy, e.Hold
+				n.keepUntil = now.Add(time.Duration(e.Hold) * time.Second)
+				if !listsUs(e.TW) {
+					n.unlisted = true
+				}
 			} else {
 				// bio-rd rejects hellos without three-way TLV (its timer keeps the previous value); the
 				// statement does not say which holding time applies then: the later limit is used
@@ -381,9 +486,9 @@ func RunAdj(c AdjCase, out *Outcome, emit func(Sent)) {
 
 func adjCaseKey(c AdjCase) string {
 	var b strings.Builder
-	fmt.Fprintf(&b, "%d%v%s", c.Nbrs, c.SameIface, c.Tail)
+	fmt.Fprintf(&b, "%d%v%s%v", c.Nbrs, c.SameIface, c.Tail, c.Level1)
 	for _, e := range c.Events {
-		fmt.Fprintf(&b, "|%s%d%s%d%d", e.K, e.N, e.TW, e.Hold, e.Sec)
+		fmt.Fprintf(&b, "|%s%d%s%d%d/%d%s", e.K, e.N, e.TW, e.Hold, e.Sec, e.CT, e.Area)
 	}
 	return b.String()
 }
